@@ -56,6 +56,14 @@ def plan(tier, seed):
                                    "max_cells": 600000, "max_T": 3, "max_states": 2, "max_choices": 2},
                       "force": {"two_cont_states": False, "two_stochastic": False},
                       "jit_false": i % 5 == 0, "env": {"VERIF_X64": "1"}})
+    # long continuous CHOICE axes (257..700 points: beyond any power-of-two block size; the maximum
+    # over the choice grid must still be the maximum over exactly the grid points)
+    for i in range(8 if tier == "quick" else 80):
+        cases.append({"kind": "generic", "index": i, "seed": [seed, 15, i], "cfg": "quick", "long_choice_axis": True,
+                      "cfg_over": {"min_cont_choice_pts": 257, "max_cont_choice_pts": 700, "max_cont_state_pts": 7,
+                                   "max_cells": 600000, "max_T": 3, "max_states": 2, "max_choices": 2, "n_cC": 1},
+                      "force": {"two_cont_states": False, "two_stochastic": False},
+                      "jit_false": i % 4 == 0, "env": {"VERIF_X64": "1"}})
     # three continuous states of pairwise different sizes (rank-3 interpolation)
     for i in range(6 if tier == "quick" else 80):
         cases.append({"kind": "generic", "index": i, "seed": [seed, 6, i], "cfg": "quick", "three_cont": True,
@@ -75,6 +83,10 @@ def plan(tier, seed):
     # hundreds of feasible combinations of filter-restricted states (and many categories)
     for i in range(4 if tier == "quick" else 40):
         cases.append({"kind": "generic", "template": ["many_restricted", "many_categories"][i % 2], "index": 1 + 2 * i, "seed": [seed, 11, i], "cfg": "quick",
+                      "jit_false": i % 4 == 0, "env": {"VERIF_X64": "1"}})
+    # optimum outside the continuous choice grid (only grid points may be evaluated), grids of 3..700 points
+    for i in range(8 if tier == "quick" else 80):
+        cases.append({"kind": "generic", "template": "off_grid_optimum", "index": 1 + 2 * i, "seed": [seed, 16, i], "cfg": "quick",
                       "jit_false": i % 4 == 0, "env": {"VERIF_X64": "1"}})
     # models without state variables (scalar value arrays)
     for i in range(6 if tier == "quick" else 60):
